@@ -141,9 +141,10 @@ def gen_reduce_case(
     if func in ("nanargmax", "nanargmin") and dt.kind == "f":
         # quantifier: nanarg* only on groups that are not entirely NaN (per batch slice)
         v2 = vals.reshape(-1, n)
+        lab1 = np.asarray(labels).reshape(-1)
         for row in v2:
-            for g in range(ngroups):
-                m = codes == g
+            for g, u in enumerate(np.asarray(uniq).tolist()):
+                m = np.array([x == u for x in lab1.tolist()], dtype=bool)  # effective members (missing labels excluded)
                 if m.any() and np.isnan(row[m]).all():
                     row[np.flatnonzero(m)[tape.draw("gen.fixnan", int(m.sum()))]] = float(g - 1)
     # chunking: leading axes and the reduced axis
@@ -384,8 +385,41 @@ def _drop_element(case, i):
     return c
 
 
+def in_quantifier(case) -> bool:
+    """Preconditions the generators establish and the shrinker must keep:
+    argmax/argmin on NaN-free data, nanarg* on groups that are not entirely NaN,
+    and at least one label present."""
+    try:
+        func = dec_value(case["kwargs"]).get("func")
+    except Exception:  # noqa: BLE001
+        return True
+    arr = dec_array(case["array"])
+    lab = dec_array(case["by"][0])
+    flat = lab.reshape(-1)
+    if flat.dtype.kind == "f" and flat.size and np.isnan(flat).all():
+        return False
+    if not isinstance(func, str) or arr.dtype.kind != "f":
+        return True
+    if func in ("argmax", "argmin"):
+        return not np.isnan(arr).any()
+    if func in ("nanargmax", "nanargmin") and lab.ndim == 1:
+        rows = arr.reshape(-1, arr.shape[-1])
+        for u in set(x for x in flat.tolist() if x == x):
+            m = flat == u
+            for row in rows:
+                if np.isnan(row[m]).all():
+                    return False
+    return True
+
+
 def shrink_reduce(case):
-    """Yield structurally smaller reduce/scan cases."""
+    """Yield structurally smaller reduce/scan cases that stay inside the quantifier."""
+    for c in _shrink_reduce(case):
+        if in_quantifier(c):
+            yield c
+
+
+def _shrink_reduce(case):
     arr = dec_array(case["array"])
     n = arr.shape[-1]
     # fewer blocks
@@ -446,7 +480,7 @@ def shrink_reduce(case):
 # ---------------------------------------------------------------------------
 
 
-def call_chunked(case, split_every=None):
+def call_chunked(case, split_every=None, func_override=None, kwargs_override=None):
     """Call flox on chunked inputs.  Returns (collections, assemble) where
     assemble(computed_tuple) -> (result, *groups) as numpy objects."""
     import dask
@@ -454,6 +488,10 @@ def call_chunked(case, split_every=None):
     from dask.base import is_dask_collection
 
     arr, bys, kwargs = decode_case(case)
+    if func_override is not None:
+        kwargs["func"] = func_override
+    if kwargs_override:
+        kwargs.update(kwargs_override)
     darr, dbys = chunked_inputs(case, arr, bys)
     se = split_every if split_every is not None else case.get("knobs", {}).get("split_every")
     cfg = {"split_every": se} if se else {}
